@@ -23,6 +23,8 @@ SELECTIONS = {
     "normal3": ("normal", "net1 net2 net3"),
     "tut3dot": ("normal.nongui.tutorial3", "net2 net3"),
     "gui4": ("leaves..tutorial_gui", "net1 net2 net3 net4"),
+    # other vm variants: both vms of tutorial3 then need a setup test of the same name
+    "tut3fed": ("normal..tutorial3", "net1 net2", {"vm1": "Fedora", "vm2": "Win7", "vm3": "Ubuntu"}),
 }
 
 
@@ -35,14 +37,20 @@ def eager_restr(restr):
     return "only %s\n" % restr
 
 
-def parse_eager(restr, nets, params=None):
+def vm_strs_of(name):
+    sel = SELECTIONS[name]
+    variant = sel[2] if len(sel) > 2 else VM_VARIANT
+    return {k: "only %s\n" % v for k, v in variant.items()}, variant
+
+
+def parse_eager(restr, nets, params=None, vm_strs=None):
     from avocado_i2n.cartgraph import TestGraph
     rec = S.ParseRecorder()
     rec.install()
     try:
         p = dict(params or {})
         p["nets"] = nets
-        g = TestGraph.parse_object_trees(None, eager_restr(restr), "", dict(VM_STRS), p)
+        g = TestGraph.parse_object_trees(None, eager_restr(restr), "", dict(vm_strs or VM_STRS), p)
     finally:
         rec.uninstall()
     return g, rec
@@ -61,8 +69,8 @@ def leaf_vms(repo, restr):
     return out
 
 
-def expected_edges(repo, restr):
-    r = S.Resolver(repo, VM_VARIANT)
+def expected_edges(repo, restr, variant=None):
+    r = S.Resolver(repo, variant or VM_VARIANT)
     seen, edges = set(), set()
     for name, vms in leaf_vms(repo, restr):
         if not vms:
